@@ -14,11 +14,11 @@ PROPS = {
         "rule": "ops = whole-domain sweeps (all 65536 i16 conversions; neg/inv/balanced/value on all q residues; rows a∘b for all b of the +,-,* tables: every row in the thorough tier, 65 rows in the quick tier), boundary operands, batch inversions with zeros, non-canonical u32 representatives; a case is distinct by its op line and non-trivial when the property's predicate applies to it (canonical operands or a 16-bit conversion) and was evaluated against a wide-integer % reference",
         "exhaustive": {"quick": (False, "conversions (65536) and unary ops (12289 each) complete; binary tables sampled by rows"),
                         "thorough": (True, "conversions, unary ops and all q² operand pairs of +,-,× enumerated in both build profiles")},
-        "level_text": "Machine-checked theorems (Lean 4) about a model of Felt: +,-,neg,× exact and canonical for all residues in both build modes (no overflow), inversion correct for all 12289 residues by kernel evaluation, centred representative in [-6144,6144], conversion canonical for all i16. The model is tied to the code by exhaustive side-by-side execution (all conversions, all unary ops; all q² pairs in the thorough tier).",
+        "level_text": "Machine-checked theorems (Lean 4) about a model of Felt: +,-,neg,× exact and canonical for all residues in both build modes (no overflow), inversion correct for all 12289 residues by kernel evaluation, centred representative in [-6144,6144], conversion canonical for all i16; batch inversion (Montgomery's trick with skipped zeros) returns exactly the element-wise inverses for every batch of any length (batch_inverse_exact, via the field ZMod 12289). The model is tied to the code by exhaustive side-by-side execution (all conversions, all unary ops; all q² pairs in the thorough tier).",
         "level_note": "Trusted: Lean kernel, the model of u32/i16 semantics in Falcon/Model/Prim, the translator (q), the harness. Batch inversion is compared, not proved.",
         "trusted_base": TB_COMMON,
         "assumptions": ["operands of the binary operations are canonical (in [0,q)) as the property states; non-canonical representatives are compared model-vs-code only"],
-        "not_proved": ["batch inversion (Montgomery trick) equals element-wise inversion: compared on generated batches, not proved"],
+        "not_proved": [],
         "release_too": True,
     },
 }
@@ -99,7 +99,7 @@ PROPS["C03"] = {
     "level_note": "Trusted: Lean kernel; the models' faithfulness to the Rust indices/casts (checked three-valued against both builds on every run); floating-point code after SecretKey decoding cannot trap and is not modelled; hash_to_point's loop is total only if SHAKE yields enough accepted chunks.",
     "trusted_base": TB_COMMON,
     "assumptions": ["SecretKey::from_bytes continues into NTT division (batch inversion, compared not proved) and from_b0 (floating point)"],
-    "not_proved": ["batch_inverse_or_zero never panics (canonical inputs; exercised with non-invertible f on every run)"],
+    "not_proved": ["the remaining steps of SecretKey::from_bytes after the field decoding (NTT division for G, FFT tree) are total: executed, incl. non-invertible f, on every run"],
     "release_too": True,
     "release_filter": r"^(decompress|pk_from_bytes|sk_from_bytes|sig_from_bytes) ",
 }
